@@ -60,3 +60,19 @@ C13_SIB_EXCEPTIONS = {}
 
 # DIM: legitimate mixes of columns and rows (areas, aspect ratios) - none needed on the pinned tree.
 C01_DIM_EXCEPTIONS = {}
+
+C09_DIM_EXCEPTIONS = {}
+# Size-agreement exceptions: "<function>:<receiver>.<method>" -> {"when": substring of the configuration or None, "reason": ...}
+_CLIP = {
+    "when": "self._width_type=WHSettings.CLIP",
+    "reason": "width='clip': render() draws the child at its packed size (); the other entry points pass size[0]-left-right, which padding_values() "
+    "makes numerically equal to that packed width (left+right = size[0] - packed width), so the flow child is asked about the same geometry",
+}
+C09_SIZE_EXCEPTIONS = {
+    f"widget.padding.Padding.{m}:self._original_widget.{m}": _CLIP for m in ("keypress", "mouse_event", "get_cursor_coords", "move_cursor_to_coords", "get_pref_col")
+}
+C09_SIZE_EXCEPTIONS["widget.frame.Frame.keypress:self._body.keypress"] = {
+    "when": None,
+    "reason": "Frame.keypress derives the body height itself (maxrow minus header/footer rows(), augmented assignments) instead of frame_top_bottom(); "
+    "the two derivations agree whenever header and footer fit, which is C09's precondition; not compared",
+}
